@@ -22,6 +22,7 @@ var commands = map[string]func([]string){
 	"c11":       cmdC11,
 	"c09":       cmdC09,
 	"loadcheck": cmdLoadcheck,
+	"s10":       cmdS10,
 }
 
 func main() {
